@@ -4,6 +4,7 @@ CONSTANTS P = 2
           MaxClock = 10
           MaxPeerKa = 1
           MaxReconnects = 1
+          MaxFaults = 0
           MaxBlocks = 1
 INVARIANT TypeOK
 INVARIANT NoFalseTimeout
